@@ -3,7 +3,7 @@ import os
 from vf import common, configs
 
 RULE = ("(a) exact aliasing c == m: 8 stream xor functions + 2 xor_ic, and every construction of the AEAD table in combined, detached and every "
-        "extra call form (encrypt and decrypt), EVERY length 0..1200; (b) arbitrary overlap: secretbox and box (both ciphers) easy, "
+        "extra call form (encrypt and decrypt), EVERY length 0..1200 and isolated large lengths {4095..4097, 8193, 16385, 65535, 65537, 131073, 2^20+1}; (b) arbitrary overlap: secretbox and box (both ciphers) easy, "
         "open_easy, detached, open_detached and their afternm forms, crypto_sign, crypto_sign_open: EVERY length 0..330 (thorough "
         "0..1200) x EVERY offset (out - in) in -80..+80. Oracle: equals the output of the same call on disjoint buffers (which C01 "
         "ties to the reference). One process per backend configuration. Each (api, len, offset, cfg) is run once; all non-trivial.")
